@@ -36,7 +36,7 @@ def mism_key(g_edge_cls, op, field, exp, got):
 def tlc_design(v, name, n, nt, ops, export, timeout):
     """exhaustive run of the repaired specification; returns (TlcResult, graph or None)"""
     cfg = L.write_cfg(name, n, nt, ops, grap=False, emit="Emit" if export else None)
-    dump = os.path.join(vlib.BUILD, name + "_ce.json")
+    dump = os.path.join(vlib.cfgdir(), name + "_ce.json")
     if os.path.exists(dump):
         os.remove(dump)
     r = vlib.tlc("LFCache", cfg, workers=W, timeout=timeout, keep_out=True, dump_trace=dump)
@@ -157,7 +157,7 @@ def as_written(v, exe, n, nt, ops):
     """GetReadsAfterPush = TRUE: TLC must find the double fetch; replay it on the real code"""
     name = "C19_aswritten_%d_%d_%d" % (n, nt, ops)
     cfg = L.write_cfg(name, n, nt, ops, grap=True, invs=["AtMostOnce"])
-    dump = os.path.join(vlib.BUILD, name + "_ce.json")
+    dump = os.path.join(vlib.cfgdir(), name + "_ce.json")
     if os.path.exists(dump):
         os.remove(dump)
     r = vlib.tlc("LFCache", cfg, workers=W, timeout=600, keep_out=True, dump_trace=dump)
@@ -277,7 +277,7 @@ def trace_validation(v, exe, n, nt, ops, seed, nexec, spurpct):
 
 def sequential(v, maxlen):
     """TLC explores SeqCache (tree of all insert/get strings); every maximal string is replayed on both variants"""
-    cfg = os.path.join(vlib.BUILD, "C19_seq.cfg")
+    cfg = os.path.join(vlib.cfgdir(), "C19_seq.cfg")
     with open(cfg, "w") as f:
         f.write("SPECIFICATION Spec\nCONSTANTS\n  Caps = {1,2,3,4}\n  MaxLen = %d\nINVARIANTS TypeOK Lifo ResultOK\n"
                 "ACTION_CONSTRAINT Emit\nCHECK_DEADLOCK FALSE\n" % maxlen)
